@@ -41,6 +41,21 @@ pub struct HistView {
     pub released: bool,
 }
 
+pub fn hist_s(h: &HistView) -> String {
+    format!(
+        "{}:{}:{}:{}:{}:{}:{}:{}:{}",
+        h.id,
+        h.time,
+        h.b_amt,
+        h.b_applied,
+        h.b_withdraw,
+        h.s_amt,
+        h.s_applied,
+        h.s_withdraw,
+        if h.released { 1 } else { 0 }
+    )
+}
+
 impl Chain {
     pub fn hub_state_query(&self) -> Option<[u128; 8]> {
         let r: Result<basset::hub::StateResponse, String> = self.q(HUB, &basset::hub::QueryMsg::State {});
@@ -107,6 +122,52 @@ impl Chain {
                 break;
             }
             start = Some(page.last().unwrap().batch_id);
+        }
+        out
+    }
+    /// one `AllHistory { start_from, limit }` page, exactly as the query returns it
+    pub fn hub_history_page(&self, start: Option<u64>, limit: Option<u32>) -> Result<Vec<HistView>, String> {
+        let r: Result<basset::hub::AllHistoryResponse, String> =
+            self.q(HUB, &basset::hub::QueryMsg::AllHistory { start_from: start, limit });
+        r.map(|p| {
+            p.history
+                .iter()
+                .map(|h| HistView {
+                    id: h.batch_id,
+                    time: h.time,
+                    b_amt: h.bsei_amount.u128(),
+                    b_applied: at(h.bsei_applied_exchange_rate),
+                    b_withdraw: at(h.bsei_withdraw_rate),
+                    s_amt: h.stsei_amount.u128(),
+                    s_applied: at(h.stsei_applied_exchange_rate),
+                    s_withdraw: at(h.stsei_withdraw_rate),
+                    released: h.released,
+                })
+                .collect()
+        })
+    }
+    /// the stored history entries read one by one from the hub's storage (no range query involved)
+    pub fn hub_history_stored(&self) -> Vec<HistView> {
+        let mut out = vec![];
+        let st = match self.stores.get(&HUB) {
+            Some(s) => s,
+            None => return out,
+        };
+        let top = self.hub_batch().0 + 1;
+        for id in 0..=top {
+            if let Ok(h) = basset_sei_hub::state::read_unbond_history(st, id) {
+                out.push(HistView {
+                    id: h.batch_id,
+                    time: h.time,
+                    b_amt: h.bsei_amount.u128(),
+                    b_applied: at(h.bsei_applied_exchange_rate),
+                    b_withdraw: at(h.bsei_withdraw_rate),
+                    s_amt: h.stsei_amount.u128(),
+                    s_applied: at(h.stsei_applied_exchange_rate),
+                    s_withdraw: at(h.stsei_withdraw_rate),
+                    released: h.released,
+                });
+            }
         }
         out
     }
@@ -239,20 +300,7 @@ impl Chain {
         let hist = self
             .hub_history()
             .iter()
-            .map(|h| {
-                format!(
-                    "{}:{}:{}:{}:{}:{}:{}:{}:{}",
-                    h.id,
-                    h.time,
-                    h.b_amt,
-                    h.b_applied,
-                    h.b_withdraw,
-                    h.s_amt,
-                    h.s_applied,
-                    h.s_withdraw,
-                    if h.released { 1 } else { 0 }
-                )
-            })
+            .map(hist_s)
             .collect::<Vec<_>>()
             .join(";");
         let mut users = vec![];
